@@ -44,13 +44,16 @@ impl DbCfg {
     pub fn builder(&self) -> redb::Builder {
         let mut b = redb::Builder::new();
         b.verif_set_page_size(self.page_size);
-        b.verif_set_region_size(self.region_size);
+        if self.region_size < (1 << 32) {
+            // 1 << 32 stands for "default geometry" (C19)
+            b.verif_set_region_size(self.region_size);
+        }
         b.set_cache_size(self.cache_size);
         b
     }
 
     pub fn max_value_len(&self) -> usize {
-        (self.region_size / 4) as usize
+        (self.region_size / 4).min(1 << 20) as usize
     }
 
     pub fn json(&self) -> serde_json::Value {
